@@ -607,6 +607,12 @@ def f5_state(check, prog):
                             continue
                     if owner in theory_like and fd.name not in (
                             '__init__',) and not init_only(cg, prog, owner, q):
+                        if attr0 in loads and call_local(cg, prog, entries, owner,
+                                                        q, attr0):
+                            check.note('state recomputed at the start of every '
+                                       'calculation before it is read',
+                                       '%s (%s)' % (norm_src(tgt), short))
+                            continue
                         if attr0 in loads:
                             bad.append((n, 'caches on the theory object during a '
                                         'calculation (the attribute is read back at '
@@ -675,6 +681,71 @@ def instance_assigned(prog, owner):
                         isinstance(n.value, ast.Name) and n.value.id == sn:
                     out.add(n.attr)
     return out
+
+
+def call_local(cg, prog, entries, owner, w, attr):
+    """True if the attribute `attr` that method `w` of the theory-like class
+    `owner` writes on the instance is scratch state of one calculation, not
+    something a later calculation can see: every caller of `w` outside the
+    constructors calls it as its very first statement, `w` writes the attribute
+    before reading it, and every other function that reads the attribute on an
+    object of this class is reached from the public calculations only through
+    such a caller (that is, after the rewrite)."""
+    related = lambda c: c and (prog.is_subclass(c, owner) or prog.is_subclass(owner, c))
+    wname = w.rpartition('.')[2]
+    callers = [f for f in cg.funcs if any(c == w for c, ln in cg.edges(f))]
+    firsts = set()
+    for f in callers:
+        fd, m, fo = cg.funcs[f]
+        if fd.name == '__init__' and related(fo):
+            continue
+        body = [st for st in fd.body if not (
+            isinstance(st, ast.Expr) and isinstance(st.value, ast.Constant))]
+        st = body[0] if body else None
+        selfn = fd.args.args[0].arg if fd.args.args else None
+        ok = isinstance(st, ast.Expr) and isinstance(st.value, ast.Call) and \
+            isinstance(st.value.func, ast.Attribute) and \
+            st.value.func.attr == wname and \
+            isinstance(st.value.func.value, ast.Name) and \
+            st.value.func.value.id == selfn and related(fo)
+        if not ok:
+            return False
+        firsts.add(f)
+    if not firsts:
+        return False
+    # inside w: the attribute is stored before it is loaded
+    fdw = cg.funcs[w][0]
+    selfw = fdw.args.args[0].arg
+    seen_store = False
+    for st in fdw.body:
+        # the value of an assignment is evaluated before its target is stored
+        order = []
+        if isinstance(st, ast.Assign):
+            order = list(ast.walk(st.value)) + [n for t in st.targets for n in ast.walk(t)]
+        else:
+            order = list(ast.walk(st))
+        for n in order:
+            if isinstance(n, ast.Attribute) and n.attr == attr and \
+                    isinstance(n.value, ast.Name) and n.value.id == selfw:
+                if isinstance(n.ctx, ast.Store):
+                    seen_store = True
+                elif not seen_store:
+                    return False
+    if not seen_store:
+        return False
+    # readers elsewhere: only behind the rewrite
+    without = cg.reachable(entries, stop=tuple(firsts))
+    for f in without:
+        if f in firsts or f == w:
+            continue
+        fd, m, fo = cg.funcs[f]
+        if not related(fo):
+            continue
+        for n in ast.walk(fd):
+            if isinstance(n, ast.Attribute) and n.attr == attr and \
+                    isinstance(n.ctx, ast.Load):
+                return False
+    return True
 
 
 def init_only(cg, prog, owner, q):
